@@ -137,22 +137,28 @@ func (c *callStateCache) get(callID string, auth *AuthContext) *resolvedCall {
 	return entry.call
 }
 
-func (c *callStateCache) put(callID string, auth *AuthContext, call *resolvedCall) {
+// put caches a resolved call. createdAt is the call token's own CreatedAt:
+// the entry expires exactly when that token does (same arithmetic as
+// checkTokenAge), never ttl after the moment it happened to be cached.
+// Anchoring to insertion time would let a token first seen near the end of
+// its life be honoured on a hit long after every miss path refuses it.
+func (c *callStateCache) put(callID string, auth *AuthContext, createdAt int64, call *resolvedCall) {
 	if c == nil || c.max <= 0 {
 		return
 	}
 	key := callID + "\x00" + callStateIdentity(auth)
+	expiresAt := time.Unix(createdAt, 0).Add(c.ttl)
 	c.mu.Lock()
 	defer c.mu.Unlock()
 	if el, ok := c.entries[key]; ok {
 		el.Value.(*callStateEntry).call = call
-		el.Value.(*callStateEntry).expiresAt = time.Now().Add(c.ttl)
+		el.Value.(*callStateEntry).expiresAt = expiresAt
 		c.order.MoveToFront(el)
 		return
 	}
 	el := c.order.PushFront(&callStateEntry{
 		key:       key,
-		expiresAt: time.Now().Add(c.ttl),
+		expiresAt: expiresAt,
 		call:      call,
 	})
 	c.entries[key] = el
@@ -451,7 +457,7 @@ func (h *HttpServer) packCallToken(callID string, outputSchema *arrow.Schema, au
 	}
 	// Warm the cache with the values we already hold, so this stream's first
 	// continuation does not have to open the token it was just handed.
-	h.callStates.put(callID, auth, &resolvedCall{SchemaIPC: data.SchemaIPC, StreamID: streamID})
+	h.callStates.put(callID, auth, data.CreatedAt, &resolvedCall{SchemaIPC: data.SchemaIPC, StreamID: streamID})
 	return token, nil
 }
 
@@ -516,7 +522,7 @@ func (h *HttpServer) resolveCall(cursor *cursorTokenData, callToken []byte, auth
 	}
 
 	got := &resolvedCall{SchemaIPC: data.SchemaIPC, StreamID: data.StreamID}
-	h.callStates.put(cursor.CallID, auth, got)
+	h.callStates.put(cursor.CallID, auth, data.CreatedAt, got)
 	return got, nil
 }
 
